@@ -105,6 +105,30 @@ def explore(ctx, depth):
                     if out != exp:
                         ctx.fail({**inp, 'clause': 'pitches moved, nothing else'}, 'the transposed export is not the source export with only the pitch letters replaced by the C09 result',
                                  impl=out, expected=exp)
+                    # the transposed document is the document of the transposed text: in every encoding and for every range of measures its export
+                    # is the export of the imported expected text (pitch letters moved, nothing else - also not the tree the ranges walk over)
+                    if 'ok' in out and out == exp:
+                        from kernpy.core.tokenizers import Encoding
+                        refdoc = kp.loads(exp['ok'])[0]
+                        M_ = len(refdoc.measure_start_tree_stages)
+                        kws = [{'encoding': Encoding.agnosticKern}, {'encoding': Encoding.agnosticExtendedKern}, {'encoding': Encoding.eKern}, {'encoding': Encoding.bEkern}]
+                        kws += [{'from_measure': a_} for a_ in range(1, M_ + 1)][:3] + ([{'from_measure': 1, 'to_measure': 1}, {'from_measure': M_, 'to_measure': M_, 'encoding': Encoding.agnosticKern}] if M_ else [])
+                        for kw in kws:
+                            got_t = call(lambda: kp.dumps(tdoc, **kw))
+                            got_r = call(lambda: kp.dumps(refdoc, **kw))
+                            ctx.seen({**inp, 'clause': 'transposed document under other options', 'options': sorted(kw)}, nt)
+                            if got_t != got_r:
+                                # finding F14d: the accidental a transposition produces stays inside the PITCH part, so the extended encodings
+                                # print no separator in front of it; attributed only when that is the whole difference
+                                import re
+                                ext = kw.get('encoding') in (Encoding.eKern, Encoding.bEkern, Encoding.agnosticExtendedKern)
+                                only_sep = ext and 'ok' in got_t and 'ok' in got_r and re.sub(r'@(?=[#n-])', '', got_r['ok']) == re.sub(r'@(?=[#n-])', '', got_t['ok'])
+                                ctx.fail({**inp, 'clause': 'transposed document = document of the transposed text, under every encoding and range',
+                                          'options': {k: str(v) for k, v in kw.items()}},
+                                         'an export of the transposed document (other encoding / measure range) is not the export of the imported transposed text',
+                                         impl=got_t, expected=got_r, core=not only_sep, finding='F14d-accidental-inside-pitch-part' if only_sep else None, tie_ok=True)
+                                if not only_sep:
+                                    break
                     # transposing back restores the export
                     back = call(lambda: kp.dumps(tdoc.to_transposed(n, 'down' if d == 'up' else 'up')))
                     if back != base:
@@ -176,4 +200,7 @@ def reproduce(ctx, key, w):
     t = d.to_transposed(w['input']['interval'], w['input']['direction'])
     if key == 'F14c-source-mutated':
         return kp.dumps(d) != before
+    if key == 'F14d-accidental-inside-pitch-part':
+        from kernpy.core.tokenizers import Encoding
+        return kp.dumps(t, encoding=Encoding.eKern) == w['impl'] and kp.dumps(kp.loads(kp.dumps(t))[0], encoding=Encoding.eKern) == w['expected']
     return kp.dumps(t) == w['impl']
